@@ -17,7 +17,7 @@
    so C07_clone is a determinism statement; the absence of sharing in the real
    implementation (Arc payloads) is checked on real cloned Contexts. *)
 From Coq Require Import List String NArith.
-From NV Require Syntax.Token Syntax.Parser Syntax.Grammar Syntax.SoundProofs VM.Value VM.Ast VM.Compile VM.Machine VM.RefSem VM.ProofsStatic.
+From NV Require Syntax.Token Syntax.Parser Syntax.Grammar Syntax.StmtGrammar Syntax.StmtProofs Syntax.SoundProofs VM.Value VM.Ast VM.Compile VM.Machine VM.RefSem.
 From NV Require Import Session.Resolver Session.ResolverProofs Session.Context Session.ContextProofs
      Session.BatchProofs Session.SaveProofs Session.Toy Session.ToyFold Session.ParseConcat Session.FoldStages
      Session.SyntaxConcat Session.VmFold
@@ -195,52 +195,55 @@ Proof.
                       Hp Hl Hs Hst (eq_refl : parser_semi_skips = true)).
 Qed.
 
-(* ---- phase 4: premise (b) on the syntax area's parser model (Syntax/Parser.v: statements =
-        expressions, `let`, procedure calls; parse_loop).  Programs that are sequences of canonically
-        printed well-formed statements round-trip, joining two of them with a newline concatenates the
-        statement lists, and — by the syntax area's soundness theorem — every single-line input of the
-        fragment that parses is such a print, so the property holds for ALL single-line inputs of the
-        modelled fragment.  (Locality of the statement parser: progress is FuelProofs.statement_good;
-        `local`/`stable` are proved in the form statement_ext for statements in printed form; for
-        statements spanning several lines they remain unproved.) ---- *)
+(* ---- phase 4: premise (b) on the syntax area's parser model (Syntax/Parser.v: the statement-level
+        parser for expressions, `let`, procedure calls and all definition forms; parse_loop).
+        Programs that are sequences of canonically printed well-formed items separated by `;` or
+        newlines (with any blank lines) round-trip (the syntax area's roundtrip_program); joining two
+        of them with a newline concatenates the statement lists; and — by the syntax area's soundness
+        theorem — every single-line simple input that parses is such a print, so the property holds for
+        ALL of those inputs.  Locality of the statement parser: C07_statement_locality_printed is the
+        `local` + `stable` condition of the skeleton for items in printed form (srest excludes a
+        following where/and continuation); for arbitrary token lists it remains unproved. ---- *)
+Theorem C07_statement_locality_printed :
+  forall i rest,
+    StmtProofs.wf_item i = true -> StmtGrammar.srest rest = true ->
+    Parser.statement (StmtProofs.pr_item i ++ rest) = Parser.Ok (StmtProofs.desugar_item i) rest.
+Proof. exact statement_ext. Qed.
+
 Theorem C07_parse_concat_syntax_canonical :
-  forall l1 l2,
-    Forall (fun s => Grammar.wf_stmt s = true) l1 -> Forall (fun s => Grammar.wf_stmt s = true) l2 ->
-    Parser.parse (pr_prog l1 ++ Token.TNewline :: pr_prog l2)
-    = Parser.Ok (map Grammar.desugar_stmt l1 ++ map Grammar.desugar_stmt l2) [].
+  forall lead1 i1 more1 trail1 lead2 i2 more2 trail2,
+    StmtProofs.wf_item i1 = true -> StmtProofs.wf_more more1 = true ->
+    StmtProofs.wf_item i2 = true -> StmtProofs.wf_more more2 = true ->
+    Parser.parse (StmtProofs.pr_prog lead1 i1 more1 trail1) = Parser.Ok (trees i1 more1) []
+    /\ Parser.parse (StmtProofs.pr_prog lead2 i2 more2 trail2) = Parser.Ok (trees i2 more2) []
+    /\ Parser.parse (StmtProofs.pr_prog lead1 i1 more1 trail1 ++ Token.TNewline :: StmtProofs.pr_prog lead2 i2 more2 trail2)
+       = Parser.Ok (trees i1 more1 ++ trees i2 more2) [].
 Proof. exact parse_concat_canonical. Qed.
 
 Theorem C07_parse_concat_syntax_single_line :
   forall ta tb la lb,
-    SoundProofs.core ta = true -> SoundProofs.no_separator ta = true ->
-    SoundProofs.core tb = true -> SoundProofs.no_separator tb = true ->
+    SoundProofs.core ta = true -> SoundProofs.no_separator ta = true -> SoundProofs.simple_start ta = true ->
+    SoundProofs.core tb = true -> SoundProofs.no_separator tb = true -> SoundProofs.simple_start tb = true ->
     Parser.parse ta = Parser.Ok la [] -> Parser.parse tb = Parser.Ok lb [] ->
     Parser.parse (ta ++ Token.TNewline :: tb) = Parser.Ok (la ++ lb) [].
 Proof. exact parse_concat_single_line. Qed.
 
-Theorem C07_statement_locality_printed :
-  forall s rest,
-    Grammar.wf_stmt s = true -> ends_stmt rest = true ->
-    Parser.statement (Grammar.pr_stmt s ++ rest) = Parser.Ok (Grammar.desugar_stmt s) rest
-    /\ Parser.starts_other_statement (Grammar.pr_stmt s ++ rest) = false.
-Proof. exact statement_ext. Qed.
-
 (* ---- phase 4: premise (a) for the compile-and-run stage on the vm area's models: the compiler is a
-        fold over statements, the static reference semantics is a fold over statements, and the stack
-        machine running the code compiled from a JOINED program halts with what that fold computes
-        (prints of the first part followed by the second, last result).  Resuming a machine at its old
-        instruction pointer after more code was appended is not expressible in VM/Machine.v; the
-        incremental session is represented by the reference semantics' state. ---- *)
+        fold over statements, the reference semantics is a fold over statements, and (with
+        C09_compile_correct) the stack machine running the code compiled from a JOINED program halts
+        with what that fold computes (prints of the first part followed by the second, last result).
+        Resuming a machine at its old instruction pointer after more code was appended is not
+        expressible in VM/Machine.v; the incremental session is represented by the reference
+        semantics' state. ---- *)
 Theorem C07_vm_compile_is_fold :
   forall (Q : Type) (p1 p2 : Ast.program Q) st, Compile.cstmts (p1 ++ p2) st = Compile.cstmts p2 (Compile.cstmts p1 st).
 Proof. intros Q. exact cstmts_app. Qed.
 
 Theorem C07_vm_joined_is_fold :
   forall (Q : Type) (O : Value.ops Q) (p1 p2 : Ast.program Q) n st1 st2,
-    ProofsStatic.ffi_parametric O -> NoDup (RefSem.fn_names (p1 ++ p2)) ->
     Compile.compile_ok (Compile.compile (Value.procs O) (p1 ++ p2)) = true ->
-    RefSem.exec_stmts O (fun _ _ => false) (true, true) n p1 (RefSem.rinit) = Value.Ok st1 ->
-    RefSem.exec_stmts O (fun _ _ => false) (true, true) n p2 st1 = Value.Ok st2 ->
+    RefSem.exec_stmts O (true, true) n p1 (RefSem.rinit) = Value.Ok st1 ->
+    RefSem.exec_stmts O (true, true) n p2 st1 = Value.Ok st2 ->
     exists m, Machine.run O (Compile.compile (Value.procs O) (p1 ++ p2)) m
               = Value.Ok (RefSem.r_out st2, RefSem.r_res st2).
 Proof. intros Q O. exact (vm_joined_is_fold O). Qed.
